@@ -233,7 +233,7 @@ def template_histories(tier, seed):
     chains += c3 if tier == "thorough" else rng.sample(c3, 120)
     if tier == "thorough":
         c4 = list(itertools.product(tk, repeat=4))
-        chains += rng.sample(c4, 1500)
+        chains += rng.sample(c4, 500)
     for su, re_, chain in itertools.product(SETUPS, REPLACE, chains):
         if tier == "quick" and rng.random() > 0.12:
             continue
@@ -296,7 +296,7 @@ def exhaustive_histories(maxlen):
 
 def units(tier, seed):
     us = []
-    nrand, per = (780, 30) if tier == "quick" else (96000, 200)
+    nrand, per = (780, 30) if tier == "quick" else (16000, 100)
     for i in range(nrand // per):
         us.append({"gen": "random", "seed": seed * 100003 + i, "n": per})
     th = template_histories(tier, seed)
@@ -304,16 +304,17 @@ def units(tier, seed):
         us.append({"gen": "templates", "ops": th[i:i + 40]})
     # bounded-exhaustive part: quick = all sequences of length <= 2 (all masks) + a sample of length 3;
     # thorough = all sequences of length <= 4 with all boundary masks
-    maxlen = 2 if tier == "quick" else 4
+    # (thorough: all sequences of length <= 3 with all masks + 40000 sampled sequences of length 4)
+    maxlen = 2 if tier == "quick" else 3
     total = sum(1 for _ in exhaustive_histories(maxlen))
     chunk = 100 if tier == "quick" else 2000
     for i in range(0, total, chunk):
         us.append({"gen": "exhaustive", "maxlen": maxlen, "lo": i, "hi": min(total, i + chunk)})
-    if tier == "quick":
-        n2, n3 = total, sum(1 for _ in exhaustive_histories(3))
-        idx = sorted(random.Random(seed).sample(range(n2, n3), 1200))
-        for i in range(0, len(idx), 50):
-            us.append({"gen": "exhaustive-sample", "maxlen": 3, "idx": idx[i:i + 50]})
+    n2, n3 = total, sum(1 for _ in exhaustive_histories(maxlen + 1))
+    idx = sorted(random.Random(seed).sample(range(n2, n3), 1200 if tier == "quick" else 40000))
+    step = 50 if tier == "quick" else 500
+    for i in range(0, len(idx), step):
+        us.append({"gen": "exhaustive-sample", "maxlen": maxlen + 1, "idx": idx[i:i + step]})
     random.Random(seed).shuffle(us)
     return us
 
